@@ -295,6 +295,16 @@ m("c14-background-job-inline", RT,
                 Ok(())""", ["C14"])
 
 
+m("c19-cluster-first-url-only", 'redis/src/cluster/config.rs',
+"""                urls.iter().map(|url| url.as_str()).collect(),""",
+"""                urls.iter().take(1).map(|url| url.as_str()).collect(),""", ["C19"])
+m("c19-sentinel-last-connection-only", 'redis/src/sentinel/config.rs',
+"""            (None, Some(connections)) => super::Manager::new(
+                connections.clone(),""",
+"""            (None, Some(connections)) => super::Manager::new(
+                connections.iter().rev().take(1).cloned().collect::<Vec<_>>(),""", ["C19"])
+
+
 def run(cmd, **kw):
     return subprocess.run(cmd, shell=True, capture_output=True, text=True, **kw)
 
